@@ -396,6 +396,18 @@ fn gen_le(r: &mut Rng, env: &[(String, LK)], want: &LK, d: u32) -> (LE, LK) {
     }
 }
 
+fn le_features(e: &LE, out: &mut Vec<&'static str>) {
+    match e {
+        LE::Lit(LV::Arr(vs)) => { out.push(if vs.is_empty() { "lit:empty-array" } else if vs.iter().any(|v| matches!(v, LV::Arr(_))) { "lit:nested-array" } else { "lit:array" }); }
+        LE::Lit(_) => {}
+        LE::Var(n) => { if ["PI", "Infinity", "MinusInfinity"].contains(&n.as_str()) { out.push("var:std-constant"); } else if n == "nope" { out.push("var:undeclared"); } else { out.push("var"); } }
+        LE::Un(op, a) => { out.push(if *op == "neg" { "un:neg" } else { "un:not" }); le_features(a, out); }
+        LE::Bin(op, a, b) => { out.push(match *op { "add" | "sub" | "mul" => "bin:arith", "div" => "bin:div", _ => "bin:logic" }); le_features(a, out); le_features(b, out); }
+        LE::Acc(_, ix) => { out.push(if ix.len() == 1 { "access:1" } else { "access:2" }); for i in ix { le_features(i, out); } }
+        LE::Call(f, args) => { out.push(match (f.as_str(), args.len()) { ("len", 1) => "call:len", ("len", _) => "call:len-arity", ("range", 3) => "call:range", ("range", _) => "call:range-arity", _ => "call:unknown" }); for a in args { le_features(a, out); } }
+    }
+}
+
 fn class_of(e: &TransformError) -> String {
     let v = variant(e);
     if numeric_conversion(e) { return "Other".into(); }
@@ -417,6 +429,26 @@ fn lets_cases(r: &mut Rng, n: usize) -> Vec<Case> {
             lets.push((name, e));
         }
         out.push(lets_case(&lets));
+    }
+    // regression (67931d1): `let _ = e` discards, whatever names occur inside e
+    let q0 = ("q0".to_string(), LE::Lit(LV::Arr(vec![LV::I(6), LV::I(2)])));
+    let us = |e: LE| ("_".to_string(), e);
+    for (_i, rest) in [
+        vec![us(LE::Acc("q0".into(), vec![LE::Lit(LV::I(0))]))],
+        vec![us(LE::Call("len".into(), vec![LE::Var("q0".into())]))],
+        vec![us(LE::Call("lenn".into(), vec![LE::Var("q0".into())]))],
+        vec![us(LE::Bin("add", Box::new(LE::Lit(LV::I(1))), Box::new(LE::Lit(LV::I(2)))))],
+        vec![us(LE::Var("q0".into()))],
+        vec![us(LE::Lit(LV::I(1))), us(LE::Acc("q0".into(), vec![LE::Lit(LV::I(1))])), ("q1".to_string(), LE::Acc("q0".into(), vec![LE::Lit(LV::I(1))]))],
+        vec![us(LE::Acc("q0".into(), vec![LE::Lit(LV::I(7))]))],
+        vec![us(LE::Bin("div", Box::new(LE::Lit(LV::I(1))), Box::new(LE::Lit(LV::I(0)))))],
+        vec![us(LE::Call("range".into(), vec![LE::Lit(LV::I(0)), LE::Call("len".into(), vec![LE::Var("q0".into())]), LE::Lit(LV::B(false))]))],
+    ].into_iter().enumerate() {
+        let mut lets = vec![q0.clone()];
+        lets.extend(rest);
+        let mut c = lets_case(&lets);
+        c.tags.push("lets:underscore-regression".into());
+        out.push(c);
     }
     // which names a constant may take (`check_if_reserved_token`)
     for name in ["min", "max", "where", "in", "for", "as", "if", "else", "solve", "true", "false", "Graph", "avg", "abs", "all", "any", "xor", "sum", "prod", "edges", "E", "len", "nodes", "V",
@@ -484,6 +516,13 @@ fn lets_case(lets: &[(String, LE)]) -> Case {
     c.imp = format!("(check {} kinds ({}) eval {})", tc, kind_list.join(" "), eval);
     c.show = format!("{}=> {}", src, c.imp);
     c.tags = vec!["stream:where-section".into(), format!("lets-typecheck:{}", if tc == "(ok)" { "accepts" } else { "rejects" }), format!("lets-transform:{}", if tr == "ok" { "ok".to_string() } else { tr.clone() })];
+    c.tags.push(format!("lets-typecheck-verdict:{}", tc));
+    let mut feats = vec![];
+    for (_, e) in lets { le_features(e, &mut feats); }
+    feats.sort(); feats.dedup();
+    for f in feats { c.tags.push(format!("lets-feature:{}", f)); }
+    if kind_list.iter().any(|k| k.contains("any")) { c.tags.push("lets-feature:static-any".into()); }
+    if kind_list.iter().any(|k| k == "undefined") { c.tags.push("lets-feature:static-undefined".into()); }
     c.nontrivial = tc == "(ok)";
     let trv = tr.trim_start_matches("(err ").trim_end_matches(')');
     if tc == "(ok)" && TYPE_CLASS.contains(&trv) {
@@ -651,7 +690,7 @@ pub fn generate(seed: u64, n: usize, thorough: bool, corpus: Option<&str>) -> Ve
     // ---- correspondence with the Lean model
     for mut c in pre_reflect::static_cases() { c.tags.push("stream:operator-tables".into()); cases.push(c); }
     cases.extend(builtin_cases(thorough));
-    cases.extend(lets_cases(&mut r, if thorough { 6000 } else { 600 }));
+    cases.extend(lets_cases(&mut r, if thorough { 8000 } else { 1500 }));
     cases.extend(destructure_cases());
     cases.extend(compound_cases());
     cases.extend(expr_cases(&mut r, if thorough { 20000 } else { 2000 }));
